@@ -24,7 +24,7 @@ func VxC08BlockIdentifiersV8() {
 	if vx.Bool("hasL1") {
 		c.hasL1, c.l1 = true, vx.U64("l1")
 	}
-	h := &Handler{bcReader: c}
+	h := New(c, nil, nil, nil) // the real constructor (caches, feeds, limits as in production)
 	head := nb - 1
 
 	// the denoted block according to the model
